@@ -303,3 +303,126 @@ Theorem C13_hover_cleanup_lines : forall s, s <> [] ->
   get_str_comment s = flat_map (fun l => s_br ++ hover_line l) (split_nl s).
 Proof. exact get_str_comment_plain. Qed.
 Print Assumptions C13_hover_cleanup_lines.
+
+(* ================================================================================================================
+   Long-bracket comments as documentation; trailing comments behind multi-line initialisers (agent c13-long)
+   Reading of the statement: (a) "the comment block directly above it" includes a long-bracket comment `--[[ text ]]`
+   (Lua's block comment; one line or several, any level) ending on the line directly above the declaration, and a
+   long-bracket comment behind a token of the identifier's line is a trailing comment: the UNCHANGED code never showed
+   either (skipWhiteSpaces kept no text for a long-bracket comment although it computes and tidies it) - genuine
+   deviation, repaired by fixes/C13-long-comment-doc.diff (finding C13-long-comment-doc). (b) "the trailing comment on
+   its line" is a comment on the line of the declaration's IDENTIFIER: a comment behind a multi-line initialiser
+   (`local s = [[a` / `b]] -- t`, `local t = {` / `} -- t`) stands on the initialiser's last line and is not the
+   declaration's documentation - statement and code agree (C13_trailing_multiline_example; such files are in file_class).
+   Model: Model/Comments.v variant flag fx (fx = false: before the fix; long_fix_deployed = true). Proofs/CommentsLong.v. *)
+From LH Require Import Proofs.CommentsLong.
+
+(* the variant fx = false is the shared lexer model, so everything above is about the code before the fix ... *)
+Theorem C13_prefix_variant_is_shared_model :
+  forall (gbk_runes : list N -> Z) (classify : list N -> numcls) bs,
+    lex_all_v false gbk_runes bs = lex_all gbk_runes bs /\
+    forall L, doc_comment_v false gbk_runes classify bs L = doc_comment gbk_runes classify bs L.
+Proof. intros g c bs. split; [apply lex_all_v_false|apply doc_comment_v_false]. Qed.
+Print Assumptions C13_prefix_variant_is_shared_model.
+
+(* ... and the deployed variant differs from it ONLY in the text kept for long-bracket comments: same tokens, same
+   lexical errors, same comment entries (keys, head / short flags, `--` lines) for EVERY file *)
+Theorem C13_deployed_differs_in_long_text_only :
+  forall (gbk_runes : list N -> Z) bs,
+    lex_all gbk_runes bs = res_map (map strip_lt) (lex_all_v true gbk_runes bs).
+Proof. exact lex_all_strip. Qed.
+Print Assumptions C13_deployed_differs_in_long_text_only.
+
+(* hence on every file whose gaps are structured (no long-bracket comment) the deployed lexer IS the shared model, and
+   every theorem above holds for the deployed code; in particular the whole-file theorem: *)
+Theorem C13_deployed_is_shared_on_class :
+  forall (gbk_runes : list N -> Z) (classify : list N -> numcls) bs rs, file_gaps gbk_runes bs = Some rs ->
+    lex_all_v true gbk_runes bs = lex_all gbk_runes bs /\
+    forall L, doc_comment_v true gbk_runes classify bs L = doc_comment gbk_runes classify bs L.
+Proof. intros g c bs rs H. split; [apply (deployed_is_shared g bs rs H)|apply (doc_comment_deployed_class g c bs rs H)]. Qed.
+Print Assumptions C13_deployed_is_shared_on_class.
+
+Theorem C13_comment_attach_file_deployed :
+  forall (gbk_runes : list N -> Z) (classify : list N -> numcls) bs,
+    file_class gbk_runes classify bs = true ->
+    forall L, pure_at (file_table gbk_runes bs) L = None ->
+      doc_comment_v true gbk_runes classify bs L = Ok (Some (spec_comment (file_table gbk_runes bs) L)).
+Proof. exact comment_attach_file_deployed. Qed.
+Print Assumptions C13_comment_attach_file_deployed.
+
+(* (b): "-- above\nlocal s = [[a\nb]] -- behind\nlocal t = 1 -- own": the comment behind the two-line string is stored for
+   line 3 (the line the string ends on); the declaration `s` (identifier on line 2) gets the block above it, not that
+   comment; `t` gets its own trailing comment. The file is in file_class: the theorem above decides it. *)
+Definition C13_prog_multiline : list N :=
+  [45;45;32;97;98;111;118;101;10; 108;111;99;97;108;32;115;32;61;32;91;91;97;10;98;93;93;32;45;45;32;98;101;104;105;110;100;10;
+   108;111;99;97;108;32;116;32;61;32;49;32;45;45;32;111;119;110].
+Example C13_trailing_multiline_example :
+  file_class (fun _ => 0%Z) classify_tok C13_prog_multiline = true /\
+  spec_comment (file_table (fun _ => 0%Z) C13_prog_multiline) 2 = [32;97;98;111;118;101] /\
+  doc_comment_v true (fun _ => 0%Z) classify_tok C13_prog_multiline 2 = Ok (Some [32;97;98;111;118;101]) /\
+  spec_comment (file_table (fun _ => 0%Z) C13_prog_multiline) 3 = [32;98;101;104;105;110;100] /\
+  doc_comment_v true (fun _ => 0%Z) classify_tok C13_prog_multiline 4 = Ok (Some [32;111;119;110]).
+Proof. repeat split; vm_compute; reflexivity. Qed.
+
+(* (a): the blocks of a file with long-bracket comments, from its BYTES (Spec/CommentSpec.v: flat items, occurrences with
+   line numbers, a long-bracket comment is a block of its own; file_blocks), and the statement for the class
+   file_class_long (every gap made of white space, LF / CRLF, `--text` and closed long-bracket comments; no two blocks
+   stored under one line; the parser reads the file to its end):
+     documentation of line L = the trailing block of L if its text is non-empty, else the block ending on L-1. *)
+Definition C13_comment_attach_long_full : Prop :=
+  forall (gbk_runes : list N -> Z) (classify : list N -> numcls) bs,
+    file_class_long gbk_runes classify bs = true ->
+    forall L, doc_comment_v true gbk_runes classify bs L = Ok (Some (spec_attach (file_blocks gbk_runes bs) L)).
+(* NOT proved yet (correspondence only: leg c13.hover states exactly this demand for files of the class, leg c13.cmap
+   compares the map). Missing: the scan lemma "skip_ws_v true on the items of parse_items records items_entries and ends
+   in after_items" (the analogue of C13_gap_entries for the four-item gaps; needs a shift lemma for scan_long_string)
+   and the lockstep of lex_loop_v with file_lgaps_f (the analogue of C13_file_layout). The look-up part is proved for
+   every map (C13_comment_attach). What IS proved about the deployed variant: the three theorems above. *)
+
+(* "-- s1\n--[[ doc\n two ]]\nlocal a = 1 --[[ t ]]\n--[==[ x ]==]\n-- y\nlocal z = 2": regression for the repaired defect and
+   instance of the full statement: line 4 (`a`) has the trailing long-bracket comment " t "; without it the block above
+   would be the two-line long-bracket comment; line 7 (`z`) has the `--` block " y" (the long-bracket comment above it is a
+   block of its own). Before the fix (variant false) line 4 had no documentation. *)
+Definition C13_prog_long : list N :=
+  [45;45;32;115;49;10; 45;45;91;91;32;100;111;99;10;32;116;119;111;32;93;93;10;
+   108;111;99;97;108;32;97;32;61;32;49;32;45;45;91;91;32;116;32;93;93;10;
+   45;45;91;61;61;91;32;120;32;93;61;61;93;10; 45;45;32;121;10; 108;111;99;97;108;32;122;32;61;32;50].
+Example C13_long_comment_regression :
+  file_class_long (fun _ => 0%Z) classify_tok C13_prog_long = true /\
+  file_class (fun _ => 0%Z) classify_tok C13_prog_long = false /\
+  doc_comment_v true (fun _ => 0%Z) classify_tok C13_prog_long 4 = Ok (Some [32;116;32]) /\
+  spec_attach (file_blocks (fun _ => 0%Z) C13_prog_long) 4 = [32;116;32] /\
+  doc_comment_v true (fun _ => 0%Z) classify_tok C13_prog_long 7 = Ok (Some [32;121]) /\
+  spec_attach (file_blocks (fun _ => 0%Z) C13_prog_long) 7 = [32;121] /\
+  doc_comment_v false (fun _ => 0%Z) classify_tok C13_prog_long 4 = Ok (Some []).
+Proof. repeat split; vm_compute; reflexivity. Qed.
+
+(* "--[[ doc\n two ]]\nlocal a = 1": a leading two-line long-bracket comment is the documentation (text " doc\n two ") *)
+Definition C13_prog_long_lead : list N :=
+  [45;45;91;91;32;100;111;99;10;32;116;119;111;32;93;93;10; 108;111;99;97;108;32;97;32;61;32;49].
+Example C13_long_lead_regression :
+  file_class_long (fun _ => 0%Z) classify_tok C13_prog_long_lead = true /\
+  doc_comment_v true (fun _ => 0%Z) classify_tok C13_prog_long_lead 3 = Ok (Some [32;100;111;99;10;32;116;119;111;32]) /\
+  spec_attach (file_blocks (fun _ => 0%Z) C13_prog_long_lead) 3 = [32;100;111;99;10;32;116;119;111;32].
+Proof. repeat split; vm_compute; reflexivity. Qed.
+
+(* the code before the fix violated the statement on this class: *)
+Theorem C13_long_doc_prefix_refuted :
+  exists bs L, file_class_long (fun _ => 0%Z) classify_tok bs = true /\
+    doc_comment_v false (fun _ => 0%Z) classify_tok bs L <> Ok (Some (spec_attach (file_blocks (fun _ => 0%Z) bs) L)).
+Proof. exists C13_prog_long_lead, 3%Z. split; [vm_compute; reflexivity|]. vm_compute. discriminate. Qed.
+Print Assumptions C13_long_doc_prefix_refuted.
+
+(* the hover model of the driver is Model/Hover.v hover_with_v: hover_with on the tokens of lex_all_v, plus - for a
+   function - the last link of the server's chain of definitions: the function expression, whose comment is looked up on
+   the line its Loc ends on (the line of `end`; class inherited_doc when that supplies the text). Full statement for it
+   (the analogue of C13_hover_file): *)
+Definition C13_hover_file_v_full : Prop :=
+  forall (gbk_runes : list N -> Z) (classify : list N -> numcls) (gbk_decode : list N -> option (list N)) bs rs,
+    file_gaps gbk_runes bs = Some rs ->
+    forall inherit file line col,
+      hover_with_v true gbk_runes classify inherit (hover_doc gbk_decode) file bs line col
+      = hover_with_v true gbk_runes classify inherit
+          (fun _ ln => convert gbk_decode (get_str_comment (spec_comment (table_of_gaps rs) ln))) file bs line col.
+(* NOT proved: needs, beside C13_hover_file's argument, that the line a function expression's Loc ends on is a line a
+   token ends on (C04's end-point theorem) so that the side condition pure_at = None is discharged for it. *)
